@@ -1,8 +1,10 @@
 /-
 Line-protocol driver of the clustering model.
 
-  new <cpmFrees> <hbAny> <tupleFails> <joinHidesLeave> <createDuringNotify> <profiles> <now>      fresh manager
+  new <cpmFrees> <hbAny> <tupleFails> <joinHidesLeave> <createDuringNotify> <cancelHidesLeave> <profiles> <now>   fresh manager
   save                                                       remember the current state (one slot)
+  emit <sid> <x> <y>                                         the VAM the current state puts on the air (`emitVam`), in
+                                                             the syntax of the `recv` op; `none` if it may not transmit
   [@] <d> <op> …                                             `@`: restore the slot first; advance the clock by d ms; apply op
      on | off | create <x> <y> <r1,r2,…|-> | join <cid> | cancel | jfail | leave <r> | brk <r> | upd | nop
      recv <sender> <x> <y> <info> <op>      info = - | <cid|->,<card>,<a|c|o>     op = - | <j|->,<l|->,<b|->
@@ -116,18 +118,38 @@ def digest (s : St) : String :=
 
 def out (var : Variant) (s : St) (r : Ret) : String := observe var s r ++ " # " ++ digest s
 
+def showShape : Shape → String
+  | .absent => "a" | .circular => "c" | .other => "o"
+
+/-- a VAM in the syntax of the `recv` op -/
+def showVam : Option Vam → String
+  | none => "none"
+  | some v =>
+    let i := match v.info with
+      | some i => s!"{showOpt i.cid},{i.card},{showShape i.shape}"
+      | none => "-"
+    let o := match v.op with
+      | some o => s!"{showOpt o.join},{showOpt o.leave},{showOpt o.breakup}"
+      | none => "-"
+    s!"recv {v.sender} {v.x} {v.y} {i} {o}"
+
 def bit? (s : String) : Option Bool := match s with | "1" => some true | "0" => some false | _ => none
 
 def clusterStep (d : DState) (t : List String) : DState × String :=
   match t with
-  | ["new", a, b, c, e, f, p, now] =>
-    match bit? a, bit? b, bit? c, bit? e, bit? f, nat? p, nat? now with
-    | some a, some b, some c, some e, some f, some p, some now =>
+  | ["new", a, b, c, e, f, g, p, now] =>
+    match bit? a, bit? b, bit? c, bit? e, bit? f, bit? g, nat? p, nat? now with
+    | some a, some b, some c, some e, some f, some g, some p, some now =>
       let s := St.init now p
-      let var : Variant := { cpmFrees := a, hbAny := b, tupleFails := c, joinHidesLeave := e, createDuringNotify := f }
+      let var : Variant := { cpmFrees := a, hbAny := b, tupleFails := c, joinHidesLeave := e, createDuringNotify := f,
+                             cancelHidesLeave := g }
       ({ d with var := var, cur := s }, out var s none)
-    | _, _, _, _, _, _, _ => (d, "bad-op")
+    | _, _, _, _, _, _, _, _ => (d, "bad-op")
   | ["save"] => ({ d with slot := d.cur }, "ok")
+  | ["emit", sid, x, y] =>
+    match nat? sid, int? x, int? y with
+    | some sid, some x, some y => (d, showVam (emitVam d.var sid x y d.cur))
+    | _, _, _ => (d, "bad-op")
   | _ =>
     let (base, t) := match t with | "@" :: rest => (d.slot, rest) | _ => (d.cur, t)
     match t with
